@@ -76,6 +76,19 @@ add("C10", "exploration",
     "Trusted: stand-alone reference runs (threads 1, hash seed 0) and the table parser; experiments come from the seeded generator.",
     "deterministic simulation of in-process histories: permuted experiment sequences in one interpreter vs stand-alone golden runs")
 
+add("C20", "exploration",
+    "Seeded search over interleavings of 2-4 complete concurrent IsoQuant invocations under one HOME: every exists/open/"
+    "truncate/flush/getmtime/makedirs/rename on the shared cache directory and every sqlite connect/commit/unlink on *.db is a "
+    "pre-emption point decided by the scheduler (PCT, starvation windows, random, round robin); families: same GTF, different "
+    "GTFs, same basename in different folders, gz / --complete_genedb mixes, adopt-while-owner-rebuilds after a pre-history. "
+    "Judged per actor: exit 0, outputs equal the same invocation alone, database used = conversion of its own annotation, cache "
+    "files well-formed.",
+    "Trusted: logical mtimes (change iff modified), atomicity of sqlite commits and of pysam/pyfaidx writes; reference .fai "
+    "pre-built; the index/BED/alignment caches of the aligner path cannot run here (no aligner) and are covered only through "
+    "set_configs_directory.",
+    "deterministic simulation of concurrent actors with a seeded scheduler over shared-cache events, vs run-alone golden outputs",
+    qt=900, tt=2400)
+
 PENDING = {p: "simulation target (DESIGN.md sections 3-4) whose check is not registered in this revision yet"
            for p in ["C02", "C03", "C05", "C07", "C08", "C09", "C10", "C12", "C15", "C17", "C18", "C20"]}
 
